@@ -78,6 +78,10 @@ def open_table(ctx, rr):
                 seen.add(key)
                 continue
             modes = [o.args[1] if len(o.args) > 1 else None for o in opens]
+            if e1 and e2 and ow is None:
+                fail(r, opens[0] if opens else None, 'existing store files are opened without consulting the overwrite request')
+                seen.add(key)
+                continue
             want = "'wb+'" if (ow or (not e1 and not e2)) else "'rb+'"
             ok = len(opens) == 2 and modes[0] == modes[1] == want
             if key not in seen:
@@ -206,8 +210,7 @@ def search_loops(ctx):
                         and isinstance(c.func.value, ast.Name):
                     recv.setdefault(c.func.value.id, set()).add(c.func.attr)
             for r, s in recv.items():
-                if s == {'read_left', 'read_right'}:
-                    out.append((u, w, r))
+                out.append((u, w, r))      # any loop that moves along a sibling pointer is a sibling search
     return out
 
 
